@@ -244,8 +244,8 @@ impl TopologicalSortMachine
             },
         };
 
+        /*  Indices of the visited frames in the stack, i.e. the rules currently being expanded */
         let mut indices_in_stack = HashSet::new();
-        indices_in_stack.insert(index);
         let mut stack = vec![starting_frame];
 
         /*  Depth-first traversal using 'stack' */
@@ -285,13 +285,23 @@ impl TopologicalSortMachine
                                 if indices_in_stack.contains(buffer_index)
                                 {
                                     let mut target_cycle = vec![];
-                                    for f in stack.iter()
+                                    for f in stack.iter().filter(|f| f.visited)
                                     {
                                         target_cycle.push(f.targets[f.sub_index].clone());
                                     }
                                     target_cycle.push(frame.targets[frame.sub_index].clone());
 
                                     return Err(TopologicalSortError::CircularDependence(target_cycle));
+                                }
+
+                                /*  The rule was discovered as the source of another rule and is still
+                                    waiting in the stack.  This rule needs it first, so move it to the top. */
+                                if let Some(position) = stack.iter().position(
+                                    |f| f.index == *buffer_index && !f.visited)
+                                {
+                                    let mut waiting_frame = stack.remove(position);
+                                    waiting_frame.sub_index = *sub_index;
+                                    reverser.push(waiting_frame);
                                 }
                             }
                         },
@@ -308,7 +318,6 @@ impl TopologicalSortMachine
 
                 while let Some(f) = reverser.pop()
                 {
-                    indices_in_stack.insert(f.index);
                     stack.push(f);
                 }
             }
